@@ -9,6 +9,7 @@ COQ_IMPORTS = ["From HTA.model Require Import C07_Model."]
 SOURCES = {"hta/analyzers/communication_analysis.py": ["get_comm_comp_overlap"],
            "hta/utils/utils.py": ["merge_kernel_intervals", "get_kernel_type", "is_comm_kernel", "is_memory_kernel", "is_compute_kernel"]}
 TRANSLATE = [translate.gen_kernel_rules]
+INPUT_CONTRACT = True        # the loaded frame is re-checked against the file (framework.input_contract)
 N_CASES = {"quick": 400, "thorough": 6000}
 RULE = ("generated file sets, mostly profile comm_overlap (device intervals anywhere on a tiny time domain, half of them communication kernels: "
         "identical, nested, touching, zero-length, equal starts, several streams, names on regex boundaries), 1-3 ranks; non-trivial = some rank has a "
@@ -20,7 +21,7 @@ ASSUMPTIONS = ["durs_nonneg: durations are non-negative",
 
 def gen_cases(seed, tier, n):
     out = []
-    profs = ["comm_overlap", "comm_overlap", "comm_overlap", "free_overlap", "fifo_tiny"]
+    profs = ["comm_overlap", "comm_overlap", "comm_overlap", "free_overlap", "fifo_tiny", "free_overlap_s0"]
     for i in range(n):
         c = tracegen.gen_case(seed, i, tracegen.PROFILES[profs[i % len(profs)]])
         c["params"] = {}
